@@ -91,6 +91,9 @@ var c18Templates = []c18Tpl{
 	{src: "{{ lm | map: 'k' | join }}|{{ lm[0].k }}|{{ lm.first.k }}|{% for x in lm %}{{ x.k }}{% endfor %}|{{ lm | size }}|{{ lm[1]['k'] }}|{{ lm.last.size }}"},
 	{src: "{{ lm | sort: 'k' | map: 'k' | join }}|{{ lm | map: 'k' | sort | join }}", noMapSlice: true, noElemPtr: true},
 	{src: "{% if l %}A{% endif %}{% if le %}B{% endif %}{% if ls contains 'a' %}C{% endif %}{% if ln.first == ln[0] %}D{% endif %}{% assign q = l %}{{ q | join }}{% capture c %}{{ ls | join }}{% endcapture %}{{ c }}"},
+	// arrays of arrays and of maps as filter input: the nested values are held in every representation too
+	{src: "{{ ln | join: ',' }}|{{ ln | reverse | join: ',' }}|{{ ln | first }}|{{ ln | last | join: '+' }}|{{ ln | concat: ln | size }}|{{ ln | uniq | size }}|{{ ln | map: 'x' | size }}"},
+	{src: "{{ lm | join: ',' }}|{{ lm | reverse | first }}|{{ lm | first }}|{{ mm.l | join: ',' }}|{{ lm | uniq | size }}", noMapSlice: true, noElemPtr: true},
 	// printing next to whitespace-control markers: what a marker strips cannot depend on how the value is held
 	{src: "[{{ lw }}{{- s }}]|[{{ s -}}{{ lv }}]|[{{ lw -}} ]|[ {{- lv }}]|[{{ lv }}{{- s }}]|[{{ s -}}{{ lw }}]|{% for x in lw %}<{{ x -}}{{- x }}>{% endfor %}|[{{ lw | join: '' }}{{- s }}]|[{{ u }}{{- s }}]|{{ lw }}{%- if t -%}{{ lw }}{%- endif -%}{{ lw }}"},
 	{src: "[{{ ls }}{{- s }}]|[{{ l -}} {{ ln }}]|[{{ le }}{{- s }}]|[{{ e }}{{- s }}]|[{{ z }}{{- s }}]"},
